@@ -474,3 +474,16 @@ for _n, _sp in SPECS.items():
         _mk_diff(_n, _a)
     if _sp["default"] is not None:
         _mk_default(_n)
+
+
+MUTANTS = [
+    dict(name="interval-eq-ignores-end", target="commonroad.common.util:Interval.__eq__", old="return self._start == other.start and self._end == other.end",
+         new="return self._start == other.start", only="Interval.differs.end"),
+    dict(name="circle-hash-ignores-centre", target="commonroad.geometry.shape:Circle.__hash__", old="return hash((self._radius, center_string))",
+         new="return hash((self._radius, id(self)))", only="Circle.equal"),
+    dict(name="occupancy-eq-ignores-time", target="commonroad.prediction.prediction:Occupancy.__eq__", old="return self._time_step == other.time_step and self._shape == other.shape",
+         new="return self._shape == other.shape", only="Occupancy.differs.time_step"),
+    dict(name="cycle-element-eq-ignores-duration", target="commonroad.scenario.traffic_light:TrafficLightCycleElement.__eq__",
+         old="return self._state == other.state and self._duration == other.duration", new="return self._state == other.state",
+         only="TrafficLightCycleElement.differs.duration"),
+]
